@@ -155,7 +155,12 @@ def run(ctx, F):
                 helpers.append(h)
     per_obj = list(cls) + helpers + [x for h in helpers for x in closures_of(F, h)]
     rp = [(cl, c) for cl in per_obj for c in live_calls(cl) if c.name in ("release_pages", "release_multiple_pages")]
-    ctx.judge(len(rp) == 1 and rp[0][0].cfg.must_pass([rp[0][1].bb]), "C36.sweep", "every swept object's pages are released exactly once", expected="one release_pages(object start) on every path of the per-object closure / helper", found=str(len(rp)),
+    # one release per per-object body (the same body may exist once per sweep loop: nursery / mature)
+    bodies = {}
+    for cl, c in rp:
+        bodies.setdefault(cl.q, []).append((cl, c))
+    okrp = bool(bodies) and all(len(v) == 1 and v[0][0].cfg.path_counts([v[0][1].bb]) == (1, 1) for v in bodies.values())
+    ctx.judge(okrp, "C36.sweep", "every swept object's pages are released exactly once", expected="one release_pages(object start) on every path of the per-object closure / helper", found=str(len(rp)),
               where=where(sp), key="C36.sweep|release-pages")
 
     # ---- locked
